@@ -300,6 +300,10 @@ def checkC10 (b : Book) (s : C10St) : CEv → C10St × Option String
       -- have to wait for an outstanding queue permit before it completes)
       if s.eofSeen && !b.failed && r != .readyOk && !(match r with | .readyErr _ => true | _ => false) then
         (s, some "inbound side ended but the dispatch did not stop in that poll")
+      -- a dispatch completes successfully only by closing the transport (after the last handle went away) or
+      -- because the peer ended the read side, in the poll in which that happens
+      else if r == .readyOk && !s.eofSeen && !s.closeSeen then
+        (s, some "dispatch completed successfully although the peer had not closed and the transport was not closed")
       else (s, none)
   | _ => (s, none)
 
